@@ -201,7 +201,7 @@ func cmdCheck(args []string) int {
 		undecided = append(undecided, lerr.Error())
 	}
 	obls = append(obls, lobls...)
-	if len(undecided) > 0 {
+	if len(obls) == 0 && len(undecided) > 0 {
 		for _, u := range undecided {
 			fmt.Println("UNDECIDED property=" + *prop + " " + u)
 		}
@@ -301,6 +301,7 @@ func cmdCheck(args []string) int {
 	for _, l := range knownLines {
 		fmt.Println(l)
 	}
+	infra = append(infra, undecided...)
 	if len(infra) > 0 {
 		for _, m := range infra {
 			fmt.Println("UNDECIDED property=" + *prop + " " + m)
